@@ -469,17 +469,31 @@ func propQ(c QCase) pbt.Outcome {
 
 type GoCase struct {
 	Src   string
-	Rsize int
+	Rsize int // -register-size; the program is written in uint<Rsize> for 8/16/32, in uint8 for the other sizes
 	Mpm   bool
 	Probe bool
 }
 
+// Register sizes the compiler has no Go type for: it says "The specified register_size is not usable, defaulting to
+// 8" and compiles the (uint8) program, but keeps the size of the flag for the machine it builds. Whatever it picks,
+// the machine and its processors have to agree.
+var oddRsizes = []int{12, 24, 10, 20, 48}
+
+func stdRsize(r int) bool { return r == 8 || r == 16 || r == 32 || r == 64 }
+
 func genGoCase(t *rapid.T) GoCase {
 	var c GoCase
 	c.Rsize = rapid.SampledFrom([]int{8, 8, 16, 32}).Draw(t, "rsize")
+	odd := rapid.IntRange(0, 3).Draw(t, "oddrsize") == 0
+	if odd {
+		c.Rsize = 8
+	}
 	c.Src, c.Mpm = c12.GenProgram(t, c12.GenOpts{Faithful: rapid.Bool().Draw(t, "faithful")}, c.Rsize)
-	if !c.Mpm && rapid.Bool().Draw(t, "forcempm") {
+	if !c.Mpm && (odd || rapid.Bool().Draw(t, "forcempm")) {
 		c.Mpm = true // -mpm -save-bondmachine also for programs without goroutines: the whole machine is saved
+	}
+	if odd {
+		c.Rsize = rapid.SampledFrom(oddRsizes).Draw(t, "oddsize")
 	}
 	return c
 }
@@ -523,11 +537,17 @@ func judgeBondgo(src string, rsize int, mpm bool, inMech bool, unfit bool) (out 
 	}
 	r := c12.RunBondgo(src, rsize, mpm, c12.Plan{GoMaxProcs: 2})
 	out.Labels = addLabels(out.Labels, "bondgo="+r.Status, fmt.Sprintf("mpm=%v", mpm))
+	if !stdRsize(rsize) {
+		out.Labels = addLabels(out.Labels, "rsize=odd")
+	}
 	switch r.Status {
 	case "harness-error":
 		out.Excluded = "harness-error"
 		return
 	case "rejected", "crash":
+		if r.Status == "crash" && os.Getenv("C16_SHOWREJ") != "" {
+			fmt.Printf("BONDGO-CRASH rsize=%d mpm=%v exit=%d\n%s\n%s\n----\n%s\n", rsize, mpm, r.Exit, clipTail(r.Stdout, 600), clipTail(r.Stderr, 1500), src)
+		}
 		// nothing emitted: a rejection (a crash of the compiler is C12's subject)
 		if r.Machine != nil {
 			out.Fail = pbt.Failf("emitted-on-"+r.Status, "bondgo status %s and a machine file was written\n%s", r.Status, src)
@@ -552,7 +572,9 @@ func judgeBondgo(src string, rsize int, mpm bool, inMech bool, unfit bool) (out 
 	var kinds []string
 	if mpm {
 		ex := unknownExpect()
-		ex.Rsize = rsize
+		if stdRsize(rsize) {
+			ex.Rsize = rsize // an odd size: the compiler may fall back to 8 or keep the flag, coherently
+		}
 		ex.Procs = len(r.Asm)
 		for _, k := range sortedIntKeys(r.Asm) {
 			if k == len(ex.CPs) {
@@ -564,8 +586,12 @@ func judgeBondgo(src string, rsize int, mpm bool, inMech bool, unfit bool) (out 
 	} else {
 		cp := asmExpect(r.Asm[0])
 		m := ld.Procs[0].Mach
-		f = wfCP("p0", m, uint8(rsize), &cp)
-		bm := &bondmachine.Bondmachine{Rsize: uint8(rsize), Domains: []*procbuilder.Machine{m}, Processors: []int{0}}
+		want := uint8(rsize)
+		if !stdRsize(rsize) {
+			want = m.Rsize // no enclosing machine to agree with
+		}
+		f = wfCP("p0", m, want, &cp)
+		bm := &bondmachine.Bondmachine{Rsize: want, Domains: []*procbuilder.Machine{m}, Processors: []int{0}}
 		kinds = machineKinds(bm)
 	}
 	if f != nil {
@@ -589,6 +615,13 @@ func judgeBondgo(src string, rsize int, mpm bool, inMech bool, unfit bool) (out 
 	out.Labels = addLabels(out.Labels, kinds...)
 	out.NonTrivial = len(kinds) > 0
 	return
+}
+
+func clipTail(s string, n int) string {
+	if len(s) > n {
+		return s[:n] + "…"
+	}
+	return s
 }
 
 func firstErrLine(s string) string {
@@ -683,7 +716,7 @@ var Props = []*pbt.Entry{
 		"circuits of 1..2 (thorough: 3) qubits with 1..9 gates -> bmqsim -build-matrix-seq-hardcoded flavours real/complex/addtree_complex (in process) -> basm -chooser-min-word-size; oracle wf() + processors = cpdef lines; non-trivial as neuralbond",
 		genQCase, propQ),
 	pbt.Def("bondgo",
-		"harness/c12 Go-subset programs (faithful and full grammar, register size 8/16/32) through the bondgo CLI: -mpm -save-bondmachine (whole machine) or -save-machine (one processor), -save-assembly; the JSON is loaded back; oracle wf() fed by the saved assembly (instruction count, highest register/port per processor); a compiler that rejects or crashes emits nothing (label), a hang is C12's subject (excluded); non-trivial = accepted and the machine touches a boundary",
+		"harness/c12 Go-subset programs (faithful and full grammar, register size 8/16/32; one case in four a uint8 program compiled with -register-size 12/24/10/20/48 -mpm: the machine and its processors have to agree on whatever size the compiler settles for) through the bondgo CLI: -mpm -save-bondmachine (whole machine) or -save-machine (one processor), -save-assembly; the JSON is loaded back; oracle wf() fed by the saved assembly (instruction count, highest register/port per processor); a compiler that rejects or crashes emits nothing (label), a hang is C12's subject (excluded); non-trivial = accepted and the machine touches a boundary",
 		genGoCase, propGo),
 	pbt.Def("unfittable",
 		"one operand that cannot fit in a small correct program (3..9 instructions): immediate 2^Rsize(+0,1,255) by rset/mov, jump to 2^O(+0,1,100) by j/jz, register r99999999999999999999 / r18446744073709551616, port i/o 255|256|511|65536 (port counts are 8 bit), romsize smaller than the program, RAM address 2^ramsize(+…), ROM address 2^O(+…); bondgo: constant 2^Rsize(+…) assigned or added; oracle: the front-end returns an error and emits no machine (a panic is not an error); non-trivial = judged",
